@@ -241,3 +241,36 @@ package eval
 //@ func isPeerNodeIP
 //@   requires peerOK(peer1) && peerOK(peer2)
 //@   ensures [C17,C01,C12] noeffect: !res
+
+// ---------------------------------------------------------------------------------------------
+// NetworkPolicy layer of the engine (C01, C14): which policies govern a pod, and what they allow together
+// ---------------------------------------------------------------------------------------------
+
+// a stored policy is usable: decoded object present, ports valid (V), exposure sets present; without exposure analysis
+// the pre-scanned exposure sets are never filled, so none of them is the full set
+//@ pred npOK(pe *PolicyEngine, np *k8s.NetworkPolicy) = np != nil && allocated(np) && np.NetworkPolicy != nil && validNP(np)
+//@     && np.IngressPolicyExposure.ExternalExposure != nil && np.IngressPolicyExposure.ClusterWideExposure != nil
+//@     && np.EgressPolicyExposure.ExternalExposure != nil && np.EgressPolicyExposure.ClusterWideExposure != nil
+//@     && (!pe.exposureAnalysisFlag ==> (!np.IngressPolicyExposure.ExternalExposure.AllowAll && !np.IngressPolicyExposure.ClusterWideExposure.AllowAll
+//@            && !np.EgressPolicyExposure.ExternalExposure.AllowAll && !np.EgressPolicyExposure.ClusterWideExposure.AllowAll))
+//@ pred netpolsOK(pe *PolicyEngine) = pe.netpolsMap != nil
+//@     && (forall ns string :: {ns in pe.netpolsMap} ns in pe.netpolsMap ==> (pe.netpolsMap[ns] != nil
+//@            && (forall name string :: {name in pe.netpolsMap[ns]} name in pe.netpolsMap[ns] ==> npOK(pe, pe.netpolsMap[ns][name]))))
+
+// the policies of the pod's namespace that govern it in the direction - as a set (the map is ranged in arbitrary order)
+//@ func (*PolicyEngine).getPoliciesSelectingPod
+//@   requires pe != nil && netpolsOK(pe) && peerOK(peer)
+//@   modifies *
+//@   ensures [C01,C14,C08] ip: (res1 == nil && dyntype(peer, *k8s.IPBlockPeer)) ==> len(res0) == 0
+//@   ensures [C01,C14,C08] sound: (res1 == nil && dyntype(peer, *k8s.PodPeer)) ==> (forall i int :: {res0[i]} (0 <= i && i < len(res0)) ==>
+//@         (exists name string :: old(peerPod(peer).Namespace in pe.netpolsMap) && old(name in pe.netpolsMap[peerPod(peer).Namespace]) && res0[i] == old(pe.netpolsMap[peerPod(peer).Namespace][name])
+//@              && governs(res0[i], peerPod(peer), direction)))
+//@   ensures [C01,C14,C08] complete: (res1 == nil && dyntype(peer, *k8s.PodPeer)) ==> (forall name string :: {name in old(pe.netpolsMap[peerPod(peer).Namespace])}
+//@         (old(peerPod(peer).Namespace in pe.netpolsMap) && old(name in pe.netpolsMap[peerPod(peer).Namespace])
+//@          && governs(old(pe.netpolsMap[peerPod(peer).Namespace][name]), peerPod(peer), direction)) ==>
+//@         (exists i int :: 0 <= i && i < len(res0) && res0[i] == old(pe.netpolsMap[peerPod(peer).Namespace][name])))
+//@   loop 1:
+//@     invariant sub: forall name string :: {seen(name)} seen(name) ==> name in netpols
+//@     invariant nilmap: netpols == nil ==> len(res) == 0
+//@     invariant sound: forall i int :: {res[i]} (0 <= i && i < len(res)) ==> (exists name string :: name in netpols && res[i] == netpols[name] && governs(res[i], p, direction))
+//@     invariant complete: forall name string :: {seen(name)} (seen(name) && governs(netpols[name], p, direction)) ==> (exists i int :: 0 <= i && i < len(res) && res[i] == netpols[name])
